@@ -15,6 +15,7 @@ import os
 from . import core
 
 INF = 1 << 62
+CONTAINER_OPS = ('fr', 'bk', 'pb', 'pop', 'cl', 'er', 'er1', 'ins', 'ins1', 'rs')
 
 
 class Beyond(Exception):
@@ -233,6 +234,7 @@ class Chain:
         self.steps = []          # (kind, needs_end_of_step, view_begin)
         self.views = []          # begin of every view the chain derives (also inside size computations)
         self.huge = False        # some computed position does not fit a pointer (64-bit header values)
+        self.modelled = True     # False: judged against the specification only (container operations)
 
     def view(self, p):
         self.views.append(p)
@@ -386,6 +388,8 @@ class Spec:
                 return 'r:%d' % st[1], ['(dr %d)' % st[1]], None
             if k == 'a':
                 return 'a:%d' % st[1], ['(da %d)' % st[1]], None
+            if k in CONTAINER_OPS:
+                return ':'.join([k] + [str(x) for x in st[1:]]), ['nomodel'], None
         raise ValueError('step %r on %s' % (st, t))
 
     def first_dyn(self, pos):
@@ -495,6 +499,33 @@ class Spec:
                 return None
             if k == 'r' or k == 'a':
                 ch.need(p + ls + st[1])
+                return None
+            if k in CONTAINER_OPS:
+                ch.modelled = False
+                n = self.rd(p, ls)
+                mx = 256 ** ls - 1
+                # documented: the buffer holds size() elements (and the elements added)
+                ch.need(p + ls + n)
+                if k in ('fr', 'bk', 'pop') and n == 0:
+                    ch.pre_ok = False
+                if k == 'pb':
+                    ch.need(p + ls + n + 1)
+                    if n + 1 > mx:
+                        ch.pre_ok = False
+                if k == 'er' and not (st[1] <= st[2] <= n):
+                    ch.pre_ok = False
+                if k == 'er1' and not st[1] < n:
+                    ch.pre_ok = False
+                if k == 'ins':
+                    ch.need(p + ls + n + st[2])
+                    if st[1] > n or n + st[2] > mx:
+                        ch.pre_ok = False
+                if k == 'ins1':
+                    ch.need(p + ls + n + 1)
+                    if st[1] > n or n + 1 > mx:
+                        ch.pre_ok = False
+                if k == 'rs':
+                    ch.need(p + ls + max(n, st[1]))
                 return None
             n = self.rd(p, ls)
             ch.need(p + ls + n)
@@ -714,6 +745,9 @@ def kind_name(pos, st):
               'a': 'array.assign_range'}[st[2]]
         where = {'msg': 'message', 'msghdr': 'message.header', 'entry': 'entry', 'dim': 'group.header'}.get(t, t)
         return '%s.field.%s' % (where, op)
+    if k in CONTAINER_OPS:
+        return 'data.' + {'fr': 'front', 'bk': 'back', 'pb': 'push_back', 'pop': 'pop_back', 'cl': 'clear',
+                          'er': 'erase_range', 'er1': 'erase', 'ins': 'insert_n', 'ins1': 'insert', 'rs': 'resize_value'}[k]
     names = {'H': 'get_header', 'G': 'group_view', 'D': 'data_view', 'z': 'size_bytes', 'n': 'size', 'b': 'begin',
              'i': 'operator[]', '+': 'iterator.inc', '*': 'iterator.deref', 'dd': 'data', 'e': 'elem.read',
              'w': 'elem.write', 'r': 'resize', 'a': 'assign_range'}
@@ -811,6 +845,24 @@ def enum_chains(spec, max_entries=2, max_chains=400):
             for cnt in sorted({c for c in (n, n + 1, fit, fit + 1) if 0 <= c <= min(mx, 4096)}):
                 add(dp + [('r', cnt)])
                 add(dp + [('a', cnt)])
+            # container operations at boundary positions
+            if n <= 64:
+                add(dp + [('cl',)])
+                add(dp + [('pb',)])
+                add(dp + [('ins1', n)])
+                add(dp + [('ins', 0, 1)])
+                add(dp + [('er', n, n)])          # empty range at end()
+                add(dp + [('rs', n)])
+                if n + 1 <= mx:
+                    add(dp + [('rs', n + 1)])
+                if n > 0:
+                    add(dp + [('fr',)])
+                    add(dp + [('bk',)])
+                    add(dp + [('pop',)])
+                    add(dp + [('er', 0, n)])      # erase(begin(), end())
+                    add(dp + [('er', n - 1, n)])  # erase(last, end())
+                    add(dp + [('er1', n - 1)])
+                    add(dp + [('er1', 0)])
 
     add([('H',)])
     leaves([('H',)], spec.m['hdrLeaves'])
